@@ -9,6 +9,7 @@ mod fam_bank;
 mod fam_curve;
 mod fam_fees;
 mod fam_fx;
+mod fam_tx;
 mod fam_gate;
 mod fam_integr;
 mod fam_panic;
@@ -17,6 +18,7 @@ mod mon;
 mod mon_c02;
 mod mon_c03;
 mod mon_c08;
+mod mon_c10;
 mod mon_c12;
 mod mon_c13;
 mod mon_c14;
@@ -71,6 +73,7 @@ fn main() {
                 "admin" => fam_admin::gen(&mut rng, n, &mut out),
                 "account" => fam_account::gen(&mut rng, n, &mut out),
                 "fees" => fam_fees::gen(&mut rng, n, &mut out),
+                "tx" => fam_tx::gen(&mut rng, n, &mut out),
                 "panic" => fam_panic::gen(&mut rng, n, &mut out),
                 _ => {
                     eprintln!("unknown family {}", fam);
@@ -102,6 +105,7 @@ fn main() {
                 "C02" => mon_c02::run(&mut rng, n, &mut rep),
                 "C03" => mon_c03::run(&mut rng, n, &mut rep),
                 "C08" => mon_c08::run(&mut rng, n, &mut rep),
+                "BR" => mon_c10::run(&mut rng, n, &mut rep),
                 "C12" => mon_c12::run(&mut rng, n, &mut rep),
                 "C13" => mon_c13::run(&mut rng, n, &mut rep),
                 "C14" => mon_c14::run(&mut rng, n, &mut rep),
